@@ -13,7 +13,7 @@ CHECKS["C04"] = {
     "assumptions": ["reads never return n>0 together with an error (net.TCPConn behaviour)", "go1.26.8 toolchain"],
     "units": [
         {"name": "c04", "pkg": "c04", "run": "^Test", "shards": 12,
-         "fuzz": [{"name": "FuzzHijack", "seconds": 90}]},
+         "fuzz": [{"name": "FuzzHijack", "seconds": 300}]},
     ],
     "expect_checks": ["c04.hijack", "c04.exhaustive"],
 }
@@ -167,7 +167,7 @@ CHECKS["C18"] = {
     "level_text": "Generated-input search against a reference decoder written from RFC 7541 plus differential and metamorphic (fragmentation) oracles; no panic; table size never above the maximum in force. Where the RFC leaves a limit to the implementation (integers above 2^32 or with more than 5 continuation octets, a size update after the first field) either outcome is admitted.",
     "level_note": "Trusted: harness/ref/hpackref (static table typed in from RFC 7541 Appendix A; Huffman code table obtained as data from the pristine x/net package's exported API, decoded by an own bit-walk). pkg/http2/hpack is not the package the forked server imports (it imports x/net's); it is tested standalone.",
     "assumptions": ["a decoding error ends the connection: histories stop at the first rejected block"],
-    "units": [{"name": "c18", "pkg": "c18", "run": "^Test", "shards": 8, "fuzz": [{"name": "FuzzDecode", "seconds": 90}]}],
+    "units": [{"name": "c18", "pkg": "c18", "run": "^Test", "shards": 8, "fuzz": [{"name": "FuzzDecode", "seconds": 300}]}],
     "expect_checks": ["c18.roundtrip", "c18.decode", "c18.huffman"],
 }
 
@@ -178,7 +178,7 @@ CHECKS["C19"] = {
     "level_text": "Generated-input search against an independent frame codec (harness/ref/frameref): no panic, never a frame above the read limit, every malformed frame rejected with a ConnectionError/StreamError whose code is in the set RFC 7540 assigns (escalation to a connection error admitted), every legal frame accepted with identical fields, written bytes identical to the RFC serialisation.",
     "level_note": "Trusted: harness/ref/frameref (about 300 lines). PUSH_PROMISE chains (PUSH_PROMISE without END_HEADERS followed by CONTINUATION) are generated but not judged: the reader tracks HEADERS chains only, and the statement speaks of HEADERS/CONTINUATION interleavings.",
     "assumptions": ["where several defects coincide in one frame any of their codes is admitted"],
-    "units": [{"name": "c19", "pkg": "c19", "run": "^Test", "shards": 8, "fuzz": [{"name": "FuzzRead", "seconds": 90}]}],
+    "units": [{"name": "c19", "pkg": "c19", "run": "^Test", "shards": 8, "fuzz": [{"name": "FuzzRead", "seconds": 300}]}],
     "expect_checks": ["c19.read", "c19.write", "c19.meta-headers", "c19.meta-sequence", "c19.meta-read-any-bytes", "c19.illegal-writes"],
 }
 
@@ -189,7 +189,7 @@ CHECKS["C08"] = {
     "level_text": "Generated-input search with predicates in both directions: method, path, query, body bytes and every end-to-end header value list equal at the backend; hop-by-hop and nominated headers absent; nothing invented beyond forwarding/fingerprint headers and message framing; Host per PreserveHost; status, backend headers, body bytes and trailers equal at the client.",
     "level_note": _E2E_NOTE + " Header order across different names and exact message framing are not observable through net/http and not part of the statement. Cookie lines are compared after joining with '; ' (RFC 9113 8.2.3).",
     "assumptions": ["requests always carry a User-Agent (otherwise Go clients add one themselves)", "Expect: 100-continue and Upgrade are not generated"],
-    "units": [{"name": "c08", "pkg": "c08", "run": "^Test", "shards": 12, "timeout": {"quick": 900, "thorough": 7200}},
+    "units": [{"name": "c08", "pkg": "c08", "run": "^Test", "shards": 12, "timeout": {"quick": 900, "thorough": 7200}, "thorough_scale": 0.75},
               {"name": "c08w", "pkg": ".", "overlay": "root", "run": "^TestVerifWiringC08$", "shards": 2}],
     "expect_checks": ["c08.passthrough", "c08.wiring"],
 }
@@ -235,7 +235,8 @@ CHECKS["C12"] = {
     "level_text": "Generated histories with an exact ledger: DATA never above stream window, connection window or the max frame size in force (settings switch at the SETTINGS ACK); at quiescence nothing deliverable is left undelivered; bodies arrive complete and unaltered once windows open; a window pushed above 2^31-1 or DATA beyond the advertised window draws a FLOW_CONTROL_ERROR; un-returned connection credit never exceeds unread bytes held by live handlers + 4096.",
     "level_note": "Trusted: the ledger in harness/c12 (RFC 9113 section 5.2/6.9), x/net v0.19.0 framer as the peer's codec, testing/synctest quiescence. The harness owns the schedule: steps are separated by quiescence, so interleavings of whole steps are explored, not instruction-level races.",
     "assumptions": ["the 4096-byte bound is the implementation's documented refresh threshold (inflowMinRefresh); the statement only asks for 'a small fixed bound'"],
-    "units": [{"name": "c12", "pkg": "c12", "run": "^Test", "shards": 12}],
+    "units": [{"name": "c12", "pkg": "c12", "run": "^Test", "shards": 12},
+              {"name": "c12y", "pkg": "c12", "run": "^TestServer$", "shards": 6, "instrument": ["serve-yield"], "tags": "verifyield", "scale": 0.4}],
     "expect_checks": ["c12.server", "c12.transport"],
 }
 
@@ -247,6 +248,7 @@ CHECKS["C13"] = {
     "level_note": "Trusted: the model in harness/c13 (admissible sets per (state, frame), DESIGN Appendix A, corrected in section 6 where it proved stricter than the RFC). Where the RFC leaves the reaction open (frames on a stream the server itself reset, connection-specific header fields) the whole set is admitted.",
     "assumptions": ["flow control is kept legal (C12 covers it)", "client GOAWAY and frames above the server's MAX_FRAME_SIZE are not generated"],
     "units": [{"name": "c13", "pkg": "c13", "run": "^Test", "shards": 12},
+              {"name": "c13my", "pkg": "c13", "run": "^TestModel$", "shards": 6, "instrument": ["serve-yield"], "tags": "verifyield", "scale": 0.4},
               {"name": "c13y", "pkg": "c13y", "run": "^Test", "shards": 6, "instrument": ["serve-yield"]}],
     "expect_checks": ["c13.model", "c13.slot-reuse"],
 }
